@@ -181,6 +181,7 @@ def to_symlib(gs):
             integ.append([tagname, {'species': ig[1], attr: ig[2], 'symbol': ig[2]}])
     mods = []
     wfs = {}
+    allpairs_done = set()
     for m in gs['modules']:
         if m[0] == 'pforce':
             _, s1, s2, dof, rc, sym, e, fi, fj = m
@@ -209,7 +210,15 @@ def to_symlib(gs):
             _, sp, name, ty, e = m
             mods.append(['ParticleScalar' if ty == 'S' else 'ParticleVector', {'species': sp, 'symbol': name, 'expression': render(e, False)}])
         elif m[0] == 'psum':
-            _, s1, s2, name, ty, rc, sym, e, fi, fj = m
+            _, s1, s2, name, ty, rc, sym, e, fi, fj = m[:10]
+            if len(m) > 10:
+                # member of an allPairs group: ONE module in the input for all colour pairs
+                if name in allpairs_done: continue
+                allpairs_done.add(name)
+                mods.append(['PairParticleScalar' if ty == 'S' else 'PairParticleVector',
+                             {'allPairs': 'yes', 'symbol': name, 'cutoff': rc, 'symmetry': int(sym),
+                              'expression': render(e, True), 'particleFactor_i': render(fi, True), 'particleFactor_j': render(fj, True)}])
+                continue
             mods.append(['PairParticleScalar' if ty == 'S' else 'PairParticleVector',
                          {'species1': s1, 'species2': s2, 'symbol': name, 'cutoff': rc, 'symmetry': int(sym),
                           'expression': render(e, True), 'particleFactor_i': render(fi, True), 'particleFactor_j': render(fj, True)}])
@@ -261,8 +270,8 @@ def to_model(gs):
         elif m[0] == 'cache':
             L.append('cache %d %d %s %s | %s' % (col[m[1]], st[id(m)], m[2], m[3], ' '.join(prefix(m[4]))))
         elif m[0] == 'psum':
-            _, s1, s2, name, ty, rc, sym, e, fi, fj = m
-            L.append('psum %d %d %d %s %s %s %s | %s | %s | %s' % (col[s1], col[s2], st[id(m)], name, ty, symlib.rat(rc), symlib.rat(sym),
+            _, s1, s2, name, ty, rc, sym, e, fi, fj = m[:10]
+            L.append('%s %d %d %d %s %s %s %s | %s | %s | %s' % ('psumall' if len(m) > 10 else 'psum', col[s1], col[s2], st[id(m)], name, ty, symlib.rat(rc), symlib.rat(sym),
                                                                    ' '.join(prefix(e)), ' '.join(prefix(fi)), ' '.join(prefix(fj))))
     idx, slots = canon_order(gs)
     for i in idx:
@@ -586,6 +595,19 @@ def gen_scenario(rng, flavour=None):
     for _ in range(nsym):
         name = next(names)
         ty = rng.choice(['S', 'S', 'V'])
+        if len(species) >= 2 and rng.random() < (0.3 if len(species) >= 3 else 0.15):
+            # `allPairs="yes"`: ONE module computes the symbol for every colour combination; position-only summand whose parity
+            # under exchange is `sym`, so that the result does not depend on the orientation of a pair
+            sym = rng.choice([1, -1])
+            e = gen_pair_expr(rng, ty, sym, [], [], False, maxdeg)
+            rc = rng.choice(CUTS)
+            d = max(1, degree(e, {}))
+            for a in species:
+                for b in species:
+                    if col[a] <= col[b] and not (a == frozen_only and b == frozen_only):
+                        modules.append(('psum', a, b, name, ty, rc, F(sym), e, ONE[ty], ONE[ty], 'allpairs'))
+            for sp in species: symtab[sp].append((name, ty, d))
+            continue
         if rng.random() < 0.4:
             sp = rng.choice(free_species)
             e = gen_part_expr(rng, ty, symtab[sp], allow_vel, maxdeg)
@@ -762,33 +784,39 @@ def oracle_pairsum(gs, rs, horizon):
     col = {s: i for i, s in enumerate(gs['species'])}
     # a summand that reads a velocity is evaluated mid-step on the predictor velocity v + lambda dt f/m, which the
     # dump (taken after integrateStep2) does not show: such modules are covered by the model comparison only
-    sums = [m for m in gs['modules'] if m[0] == 'psum' and not any(uses_vel(e) for e in m[7:10])]
-    if not sums: return 'n/a'
+    groups = {}
+    for m in gs['modules']:
+        if m[0] == 'psum': groups.setdefault(m[3], []).append(m)
+    groups = {n: ms for n, ms in groups.items() if not any(uses_vel(e) for m in ms for e in m[7:10])}
+    if not groups: return 'n/a'
     for s in rs[:horizon + 1]:
         ps = real_particles(s)
-        for m in sums:
-            _, s1, s2, name, ty, rc, sym, e, fi, fj = m
-            c1, c2 = col[s1], col[s2]
+        for name, ms in sorted(groups.items()):
+            ty = ms[0][4]
             zero = F(0) if ty == 'S' else (F(0),) * 3
             add = (lambda a, b: a + b) if ty == 'S' else vadd
             mul = (lambda a, b: a * b) if ty == 'S' else (lambda a, b: tuple(x * y for x, y in zip(a, b)))
             scale = (lambda c, a: c * a) if ty == 'S' else vscale
             for a, p in enumerate(ps):
-                if p['frozen'] or p['colour'] not in (c1, c2): continue
+                if p['frozen'] or not any(p['colour'] in (col[m[1]], col[m[2]]) for m in ms): continue
                 tot = zero
-                for b, q in enumerate(ps):
-                    if a == b: continue
-                    # p as first
-                    for (first, second, pfirst) in ((p, q, True), (q, p, False)):
-                        if first['colour'] != c1 or second['colour'] != c2: continue
-                        if c1 == c2 and not pfirst: continue          # equal colours: orientation-independent by construction, count once
-                        d = minimg(gs, vsub(tuple(first['r']), tuple(second['r'])))
-                        if not norm2(d) < F(rc) * F(rc): continue
-                        env = {'rij': d, 'ri': tuple(first['r']), 'rj': tuple(second['r']), 'vi': tuple(first['v']), 'vj': tuple(second['v']),
-                               'ti': tagdict(first), 'tj': tagdict(second)}
-                        val = evalx(e, env)
-                        if pfirst: tot = add(tot, mul(evalx(fi, env), val))
-                        else: tot = add(tot, scale(F(sym), mul(evalx(fj, env), val)))
+                for m in ms:
+                    _, s1, s2, _n, _ty, rc, sym, e, fi, fj = m[:10]
+                    c1, c2 = col[s1], col[s2]
+                    if p['colour'] not in (c1, c2): continue
+                    for b, q in enumerate(ps):
+                        if a == b: continue
+                        # p as first
+                        for (first, second, pfirst) in ((p, q, True), (q, p, False)):
+                            if first['colour'] != c1 or second['colour'] != c2: continue
+                            if c1 == c2 and not pfirst: continue          # equal colours: orientation-independent by construction, count once
+                            d = minimg(gs, vsub(tuple(first['r']), tuple(second['r'])))
+                            if not norm2(d) < F(rc) * F(rc): continue
+                            env = {'rij': d, 'ri': tuple(first['r']), 'rj': tuple(second['r']), 'vi': tuple(first['v']), 'vj': tuple(second['v']),
+                                   'ti': tagdict(first), 'tj': tagdict(second)}
+                            val = evalx(e, env)
+                            if pfirst: tot = add(tot, mul(evalx(fi, env), val))
+                            else: tot = add(tot, scale(F(sym), mul(evalx(fj, env), val)))
                 got = tagdict(p)[name]
                 if got != tot:
                     return 'step %d: symbol %s of particle (c=%d,slot=%d): dump %s, direct sum %s' % (s['step'], name, p['colour'], p['slot'], got, tot)
